@@ -47,6 +47,7 @@ func init() {
 		bout := fs.String("behaviours", "", "where to save the drawn behaviours")
 		workers := fs.Int("workers", runtime.NumCPU(), "parallel worlds")
 		focus := fs.Int("focus", 0, "message type whose forgeries get extra weight (64, 22, 32)")
+		restarts := fs.Int("restarts", 2, "percentage of steps that restart the server side")
 		_ = fs.Parse(args)
 		var cs []srvexec.Config
 		if err := json.Unmarshal([]byte(*cfgs), &cs); err != nil || len(cs) == 0 {
@@ -69,7 +70,7 @@ func init() {
 		for i := 0; i < *n; i++ {
 			c := cs[i%len(cs)]
 			c.Seed = rng.Int63()
-			bs = append(bs, srvexec.RandomBehaviour(rng, c, *ln, f2, *focus))
+			bs = append(bs, srvexec.RandomBehaviour(rng, c, *ln, f2, *focus, *restarts))
 		}
 		if *bout != "" {
 			data, _ := json.Marshal(bs)
